@@ -613,6 +613,11 @@ func poolsByNamespace(pools map[string]*Pool) map[string][]string {
 			poolsForNamespace[namespace] = append(poolsForNamespace[namespace], pool.Name)
 		}
 	}
+	// pools is a map: sort the names so that the same resources always
+	// produce the same configuration.
+	for namespace := range poolsForNamespace {
+		sort.Strings(poolsForNamespace[namespace])
+	}
 	return poolsForNamespace
 }
 
